@@ -51,6 +51,25 @@ type c19Scenario struct {
 	Size     uint32
 	Lang     string // Config.Language
 	Res      string // "" = the harness's recording resource; "menu" = resource.MenuResource with per-session closures
+	First    bool   // every engine gets a first function (engine.WithFirst) that does nothing
+}
+
+// shortCatchApp: a catch node of 6 bytes of code (HALT; MOVE ^), as examples/http has it, and a page whose
+// template fails after it has produced text (it names a symbol that is not mapped there).
+func shortCatchApp(slack int) *app.App {
+	a := app.New("shortcatch")
+	a.Node("root", "root", codec.Ins{Op: codec.MOUT, Sym: "la", Sel: "1"}, codec.Ins{Op: codec.MOUT, Sym: "lb", Sel: "2"}, codec.Ins{Op: codec.HALT},
+		codec.Ins{Op: codec.INCMP, Sym: "aa", Sel: "1"}, codec.Ins{Op: codec.INCMP, Sym: "acct", Sel: "2"})
+	a.Node("aa", "at aa", codec.Ins{Op: codec.MOUT, Sym: "back", Sel: "0"}, codec.Ins{Op: codec.HALT}, codec.Ins{Op: codec.INCMP, Sym: "_", Sel: "0"})
+	a.Node("acct", "account of {{.owner}}: {{.balance}}", codec.Ins{Op: codec.LOAD, Sym: "owner", N: 20}, codec.Ins{Op: codec.MAP, Sym: "owner"}, codec.Ins{Op: codec.MOUT, Sym: "back", Sel: "0"}, codec.Ins{Op: codec.HALT},
+		codec.Ins{Op: codec.INCMP, Sym: "_", Sel: "0"})
+	a.Node("_catch", "oops", codec.Ins{Op: codec.HALT}, codec.Ins{Op: codec.MOVE, Sym: "^"})
+	a.Func("owner", func(e *app.Env, sym string, in []byte, l string) (resource.Result, error) {
+		return resource.Result{Content: fmt.Sprintf("owner%d", e.Counts[sym])}, nil
+	})
+	a.SharedCode = true
+	a.CodeSlack = slack
+	return a
 }
 
 func hubApp(slack int) *app.App {
@@ -116,6 +135,9 @@ var c19Scenarios = []c19Scenario{
 	{Name: "moves-3x2-persisted-fs", Build: moveApp, Sessions: [][]string{{"", "1"}, {"", "2"}, {"", "5"}}, Mode: "persisted-fs"},
 	{Name: "moves-2x3-persisted-mem", Build: moveApp, Sessions: [][]string{{"", "1", "0"}, {"", "zz", "1"}}, Mode: "persisted-mem"},
 	{Name: "moves-2x3-menu-resource", Build: moveApp, Sessions: [][]string{{"", "1", "0"}, {"", "1", "1"}}, Mode: "long-lived", Res: "menu"},
+	{Name: "short-catch-code-2x3", Build: shortCatchApp, Sessions: [][]string{{"", "zz", "1"}, {"", "9", "zz"}}, Mode: "long-lived"},
+	{Name: "failing-template-next-to-a-page-2x3", Build: shortCatchApp, Sessions: [][]string{{"", "2", "0"}, {"", "1", "0"}}, Mode: "long-lived"},
+	{Name: "first-function-2x2-persisted-mem", Build: moveApp, Sessions: [][]string{{"", "1"}, {"", "2"}}, Mode: "persisted-mem", First: true},
 	{Name: "same-sink-browse-2x3", Build: pagedShared, Sessions: [][]string{{"", "11", "11"}, {"", "11", "22"}}, Mode: "long-lived", Size: 26},
 	{Name: "one-ends-one-browses-2x3", Build: pagedShared, Sessions: [][]string{{"", "0"}, {"", "11", "11"}}, Mode: "persisted-fs", Size: 26},
 }
@@ -166,6 +188,11 @@ func c19Serve(sc c19Scenario, a *app.App, id string, inputs []string, dir string
 			e := en
 			if sc.Mode != "long-lived" || e == nil {
 				e = engine.NewEngine(cfg, res)
+				if sc.First {
+					e = e.WithFirst(func(ctx context.Context, sym string, input []byte) (resource.Result, error) {
+						return resource.Result{}, nil
+					})
+				}
 				if sc.Mode != "long-lived" {
 					var store db.Db
 					if sc.Mode == "persisted-fs" {
